@@ -275,6 +275,37 @@ def referenz_overload_programs():
     return out
 
 
+def referenz_alias_programs():
+    """one alias pattern declared twice, with a value and with a Referenz parameter, for every kind of type: the Referenz
+    variant is called exactly for assignable arguments (variable, list element, field), the value variant for temporaries
+    and for a Buchstabe of a Text (which cannot be passed by Referenz)"""
+    H = ('Binde "Duden/Ausgabe" ein.\n'
+         'Wir nennen die Kombination aus\n\tder Zahl x mit Standardwert 0,\neinen Punkt, und erstellen sie so:\n\t"ein Punkt mit x gleich <x>"\n\n')
+    kinds = [("Zahl", "Zahlen Referenz", "Zahlen Liste", "Die", "5", "6"), ("Kommazahl", "Kommazahlen Referenz", "Kommazahlen Liste", "Die", "2,5", "3,5"),
+             ("Buchstabe", "Buchstaben Referenz", "Buchstaben Liste", "Der", "'a'", "'b'"), ("Text", "Text Referenz", "Text Liste", "Der", '"t"', '"u"'),
+             ("Wahrheitswert", "Wahrheitswert Referenz", "Wahrheitswert Liste", "Der", "wahr", "falsch"), ("Byte", "Byte Referenz", "Byte Liste", "Der", "(7 als Byte)", "(8 als Byte)"),
+             ("Punkt", "Punkt Referenz", "Punkt Liste", "Der", "(ein Punkt mit x gleich 1)", "(ein Punkt mit x gleich 2)")]
+    out = []
+    for i, (t, tref, tlist, art, v1, v2) in enumerate(kinds):
+        decl = ('Die Funktion wert%d mit dem Parameter p vom Typ %s, gibt einen Text zurück, macht:\n\tGib "Wert" zurück.\nUnd kann so benutzt werden:\n\t"prüfe <p>"\n\n'
+                'Die Funktion ref%d mit dem Parameter p vom Typ %s, gibt einen Text zurück, macht:\n\tGib "Referenz" zurück.\nUnd kann so benutzt werden:\n\t"prüfe <p>"\n\n'
+                % (i, t, i, tref))
+        fld = ('Wir nennen die Kombination aus\n\t%s %s feld mit Standardwert %s,\neinen Halter, und erstellen sie so:\n\t"ein Halter"\n\n'
+               % ({"Die": "der", "Der": "dem"}[art], t, v1))
+        vars_ = ("%s %s v ist %s.\nDie %s l ist eine Liste, die aus %s, %s besteht.\nDer Halter h ist ein Halter.\nDie Halter Liste hl ist eine Liste, die aus h besteht.\n"
+                 % (art, t, v1, tlist, v1.strip("()") if not v1.startswith("(ein") else v1, v2.strip("()") if not v2.startswith("(ein") else v2))
+        forms = [("v", "Referenz"), ("(l an der Stelle 2)", "Referenz"), ("(feld von h)", "Referenz"), ("(feld von (hl an der Stelle 1))", "Referenz"), (v1, "Wert")]
+        if t == "Buchstabe":
+            forms += [('("abc" an der Stelle 2)', "Wert"), ("(tx an der Stelle 1)", "Wert")]
+            vars_ += 'Der Text tx ist "xyz".\n'
+        if t == "Zahl":
+            forms += [("(v plus 1)", "Wert"), ("(die Länge von l)", "Wert")]
+        body = "".join("Schreibe (prüfe %s) auf eine Zeile.\n" % f for f, _ in forms)
+        exp = "".join(w + "\n" for _, w in forms)
+        out.append(("referenz-alias:%s" % t, H + fld + decl + vars_ + body, exp))
+    return out
+
+
 def span_stage(res, harness, model, rng, quick, st):
     """which tokens the parser binds to which placeholder name: FuncCall.Args against DDP.AliasMatch"""
     from .. import aliasspans as A
@@ -452,7 +483,7 @@ def check(res, tier):
     # (2b) argument spans and binding by name
     span_stage(res, harness, model, rng, quick, st)
     # (3) fixed programs, operator overloads over aliases and type definitions
-    fixed_all = FIXED + overload_programs() + referenz_overload_programs()
+    fixed_all = FIXED + overload_programs() + referenz_overload_programs() + referenz_alias_programs()
     fixed = pipeline.farm(ddp, [({"main.ddp": s}, pipeline.Config(opt=1), {}) for _, s, _ in fixed_all])
     for (name, src, want), r in zip(fixed_all, fixed):
         res.evaluations += 1
